@@ -62,6 +62,25 @@ class Setup:
             self.sendp = {1: p}
             self.recvp = p
             self.nlanes = 1
+        elif kind == 'faultydev':
+            # a device whose first write fails (the cable was pulled): send() raises OSError,
+            # everything else must go on working
+            WirePort = S.make_wire_port_class()
+
+            class Faulty(WirePort):
+                failed = False
+
+                def _send(self, msg):
+                    if not self.failed:
+                        self.failed = True
+                        raise OSError('device write failed')
+                    WirePort._send(self, msg)
+            w = S.Wire()
+            p = Faulty('dev', rwire=w, wwire=w)
+            self.q = S.instrument(p)
+            self.sendp = {1: p}
+            self.recvp = p
+            self.nlanes = 1
         elif kind == 'device':
             WirePort = S.make_wire_port_class()
             w = S.Wire()
@@ -96,6 +115,7 @@ class Setup:
             import socket
             from mido.sockets import SocketPort
             a, b = socket.socketpair()
+            a.settimeout(8.0)
             p = SocketPort('peer', 1, conn=a)
             self.q = S.instrument(p)
             self.peer = b
